@@ -48,6 +48,16 @@ pub fn analyze_type(
         Neg(a) => check(enode, x(a)?, |a| a.is_number()),
         Add([a, b]) | Sub([a, b]) | Mul([a, b]) | Div([a, b]) | Mod([a, b]) => {
             merge(enode, [x(a)?, x(b)?], |[a, b]| {
+                // DATE + INTERVAL, INTERVAL + DATE, DATE - INTERVAL (the only forms with a kernel)
+                match (&a, &b) {
+                    (DataType::Date, DataType::Interval) => {
+                        return matches!(enode, Add(_) | Sub(_)).then_some(DataType::Date)
+                    }
+                    (DataType::Interval, DataType::Date) => {
+                        return matches!(enode, Add(_)).then_some(DataType::Date)
+                    }
+                    _ => {}
+                }
                 match if a > b { (b, a) } else { (a, b) } {
                     (DataType::Null, _) => Some(DataType::Null),
                     (
@@ -63,7 +73,6 @@ pub fn analyze_type(
                         _ => unreachable!(),
                     },
                     (a, b) if a.is_number() && b.is_number() => Some(b),
-                    (DataType::Date, DataType::Interval) => Some(DataType::Date),
                     _ => None,
                 }
             })
